@@ -4,7 +4,9 @@ PKG = "payments/db"
 
 PROP = dict(
     level="exploration",
-    technique="rapid state machine + reference model + KV/SQL differential; goroutine stress under -race",
+    technique=("rapid state machine + reference model + KV/SQL differential; goroutine stress under -race; "
+               "control tower: same-hash concurrent histories judged by a linearizability checker "
+               "(Wing-Gong search against the sequential model), store spy + subscriber stream oracle, under -race"),
     rule=("A case is one generated history of 8-40 calls (InitPayment, RegisterAttempt with MPP / "
           "single-shot / blinded / blinded+MPP routes and matching or mismatching records, "
           "SettleAttempt, FailAttempt, Fail, DeleteFailedAttempts, DeletePayment, DeletePayments, "
@@ -23,20 +25,48 @@ PROP = dict(
           "disjoint payment hashes plus 1-2 readers; in the thorough tier under -race. "
           "Non-trivial = the history reached ErrValueExceedsAmt, ErrPaymentPendingSettled or "
           "ErrAlreadyPaid, or re-initiated a failed payment. Distinct = distinct call sequences "
-          "(attempt ids relative to the case)."),
+          "(attempt ids relative to the case). "
+          "TestVerifC16ControlTower (package routing): one generated plan = 2-4 goroutines x 3-10 calls "
+          "(InitPayment, RegisterAttempt plain/MPP with fitting, overshooting, mismatching and duplicate "
+          "attempts, SettleAttempt, FailAttempt incl. unknown/foreign/resolved ids, FailPayment, "
+          "FetchPayment, DeleteFailedAttempts, SubscribePayment, SubscribeAllPayments, clients that close "
+          "their subscription early) ON THE SAME 1-2 payment hashes through a real controlTower, run once "
+          "over the KVStore and once over the SQLStore (each run is one evaluation). Every call's "
+          "invocation/response is stamped with a logical clock owned by the harness; per hash the answers "
+          "must be explainable by some sequential order consistent with real-time precedence under the "
+          "reference model (fetches and first subscription updates are compared as full payment views). A "
+          "spy between tower and store checks that RegisterAttempt/SettleAttempt/FailAttempt/Fail and the "
+          "tower's notification fetches for one hash never overlap inside the store, evaluates the "
+          "model-independent invariants on every store answer, fetch and notification, and keeps the "
+          "ordered per-hash log of store answers; every SubscribePayment stream must equal that log from "
+          "the subscription on up to the first terminal state and must then have been closed by the "
+          "tower (all payments are driven to a terminal state at the end, closure is established without "
+          "timing), SubscribeAllPayments streams opened before any payment exists must equal the log, "
+          "later ones must contain its tail in order. Non-trivial (tower test) = >=2 goroutines had "
+          "overlapping calls on the same hash and a documented refusal occurred (ErrValueExceedsAmt, "
+          "ErrPaymentPendingSettled, ErrPaymentPendingFailed, ErrAlreadyPaid, ErrPaymentInFlight, "
+          "ErrPaymentExists, ErrPaymentAlreadySucceeded, ErrPaymentAlreadyFailed)."),
     assumptions=[
         "attempt ids come from one node-wide sequencer: the same id is never offered to RegisterAttempt under two different payments (counted outside_domain); every attempt carries a fresh session key",
-        "calls for one payment hash are serialised by the caller (interface.go; control tower per-hash mutex): goroutines own disjoint hashes, same-hash races are not generated",
+        "store-level tests (payments/db): calls for one payment hash are serialised by the caller (interface.go; control tower per-hash mutex): goroutines own disjoint hashes, same-hash races are not generated there - they are generated through the control tower in TestVerifC16ControlTower, which is the component that owes the serialisation",
         "both stores are shared by all cases of a process and emptied through their own API (DeletePayments / FailAttempt / Fail) before each case; bbolt's Batch coalescing delay is set to 0 in the sequential test (latency knob of the bbolt handle only) and left at its default in the concurrent test",
         "error identity is compared only for the documented sentinels; backends returning different non-sentinel errors are counted as soft divergences, not violations",
         "known findings C16:sql-settle-foreign-attempt and C16:kv-register-duplicate-attempt-id are excluded from generation by construction when listed as known; C16:sql-register-unknown-sentinel and C16:kv-delete-unknown-sentinel only suspend the sentinel comparison for that call",
         "sqlite lock timeouts in the concurrent test make the case inconclusive (skipped and counted), never a violation",
+        "control tower test: attempts are plain or MPP only (blinded kinds are covered by the sequential test); attempt ids are unique per payment hash except the generated duplicate / foreign-id classes; the tower is created per case and backend over stores shared by the process, purged through their API before each run; bbolt's Batch delay is 0 unless VERIF_C16_KEEP_BATCH_DELAY=1",
+        "control tower test: the spy identifies the tower's own fetches by the context the tower forwards (InitPayment's ctx is tagged by the harness, SubscribePayment uses context.TODO()); the first update of a SubscribePayment stream is located in the store log by object identity - if the tower ever copied the payment the stream would be counted inconclusive, not judged",
+        "control tower test: the start of a SubscribeAllPayments stream opened while payments exist is documented to contain duplicates / out-of-order events and is only required to contain the updates that entered the store after the subscription returned; a subscriber that closed its subscription itself is only required to have seen a prefix",
+        "control tower test: wall-clock deadlines (goroutine join 120 s, stream readers 30 s) only ever make a case inconclusive; yields injected by the spy are rapid draws (runtime.Gosched counts), not sleeps",
     ],
     jobs=dict(
         quick=[
             job(PKG, "^TestVerifC16Repro$", ["TestVerifC16Repro"], 1, shards=1),
             job(PKG, "^TestVerifC16Sequential$", ["TestVerifC16Sequential"], 250, shards=8),
             job(PKG, "^TestVerifC16Concurrent$", ["TestVerifC16Concurrent"], 30, shards=2),
+            # control tower: 2-4 goroutines on the SAME hashes + subscribers, both backends
+            job("routing", "^TestVerifC16ControlTower$", ["TestVerifC16ControlTower"], 300, shards=4),
+            job("routing", "^TestVerifC16ControlTower$", ["TestVerifC16ControlTower"], 40, shards=4,
+                race=True),
         ],
         thorough=[
             job(PKG, "^TestVerifC16Repro$", ["TestVerifC16Repro"], 1, shards=1),
@@ -48,6 +78,10 @@ PROP = dict(
             # the same under -race (modernc sqlite is ~10x slower when instrumented)
             job(PKG, "^TestVerifC16Concurrent$", ["TestVerifC16Concurrent"], 25, shards=8,
                 race=True, env=dict(VERIF_C16_CONC_OPS=20, VERIF_C16_READS=80), timeout=1200),
+            job("routing", "^TestVerifC16ControlTower$", ["TestVerifC16ControlTower"], 1500, shards=8,
+                env=dict(VERIF_C16_TOWER_OPS=12), timeout=1800),
+            job("routing", "^TestVerifC16ControlTower$", ["TestVerifC16ControlTower"], 150, shards=8,
+                race=True, env=dict(VERIF_C16_TOWER_OPS=12), timeout=1800),
         ],
     ),
 )
